@@ -2101,6 +2101,10 @@ class _TrampolineArgs:
 
         try:
             final = self._args[-1]
+            if final is None:
+                # A `nil` rest argument means there are no more arguments, the same as
+                # an empty seq; it is not itself an argument.
+                return self._args[:-1]
             if isinstance(final, ISeq):
                 inits = self._args[:-1]
                 return tuple(itertools.chain(inits, final))
